@@ -62,12 +62,19 @@ fn hmat_history(cx: &mut CaseCtx, ni: usize, nt: usize, hist: &[(usize, usize, u
     let mut model: HashMap<(usize, usize), u16> = HashMap::new();
     cx.eval();
     let cell0 = 32 + 4 * ni + 4 * nt;
-    for (step, &(i, j, v)) in hist.iter().enumerate() {
-        if let Err(e) = catches(|| s.set_entry_value(i, j, v)) {
-            cx.violation(format!("HMAT {}x{} locality: in-range cell ({}, {}) is refused: {}", ni, nt, i, j, e), obj(vec![("history", format!("{:?}", &hist[..=step]).into())]));
-            return false;
+    // step 0 is the structure as created (no assignment yet: every cell reads "unreachable")
+    for step in 0..=hist.len() {
+        if step > 0 {
+            let (i, j, v) = hist[step - 1];
+            if let Err(e) = catches(|| s.set_entry_value(i, j, v)) {
+                cx.violation(format!("HMAT {}x{} locality: in-range cell ({}, {}) is refused: {}", ni, nt, i, j, e), obj(vec![("history", format!("{:?}", &hist[..step]).into())]));
+                return false;
+            }
+            model.insert((i, j), v);
+        } else {
+            cx.rep.cov("hmat_unassigned_structure_observed");
         }
-        model.insert((i, j), v);
+        let hist_upto = &hist[..step];
         let img = to_vec(&s);
         cx.obs();
         if img.len() != cell0 + 2 * ni * nt {
@@ -81,7 +88,7 @@ fn hmat_history(cx: &mut CaseCtx, ni: usize, nt: usize, hist: &[(usize, usize, u
                 if got != want {
                     cx.violation(
                         format!("HMAT {}x{} locality: row-major cell (initiator {}, target {}) holds {:#x} but the last value assigned to it is {:#x}", ni, nt, a, b, got, want),
-                        obj(vec![("history", format!("{:?}", &hist[..=step]).into()), ("cells", hex(&img[cell0..]).chars().take(400).collect::<String>().into())]),
+                        obj(vec![("history", format!("{:?}", hist_upto).into()), ("cells", hex(&img[cell0..]).chars().take(400).collect::<String>().into())]),
                     );
                     return false;
                 }
@@ -190,6 +197,10 @@ pub fn run_c12(cfg: &Cfg) -> Report {
             let total = ops + ops * ops;
             let mut r = par_cases(cfg, &format!("hmat.exhaustive.{}x{}", ni, nt), total, |cx| {
                 let mut idx = cx.idx;
+                if idx == 0 {
+                    // the structure nobody assigned to, alone and inside a table
+                    hmat_history(cx, ni, nt, &[], true);
+                }
                 let len = if idx < ops {
                     1
                 } else {
@@ -225,7 +236,7 @@ pub fn run_c12(cfg: &Cfg) -> Report {
             1 => (1 + r.usize_below(24), 1),
             _ => (1 + r.usize_below(24), 1 + r.usize_below(24)),
         };
-        let len = 1 + r.usize_below(60);
+        let len = r.usize_below(61);
         let hist: Vec<(usize, usize, u16)> = (0..len).map(|_| (r.usize_below(ni), r.usize_below(nt), r.u16b())).collect();
         if hmat_history(cx, ni, nt, &hist, true) {
             cx.rep.distinct(&(ni, nt, hist));
